@@ -378,7 +378,9 @@ func cmdCodecRandom(args []string) error {
 
 type haltRes struct{ resource.MenuResource }
 
-func runVerdict(b []byte) (verdict string) {
+func runVerdict(b []byte) (verdict string, tops [][]int) {
+	tops = [][]int{}
+	defer func() { vm.VerifHook = nil }()
 	defer func() {
 		if r := recover(); r != nil {
 			verdict = "panic"
@@ -396,7 +398,7 @@ func runVerdict(b []byte) (verdict string) {
 		d, _ := decode(rest)
 		if op == 1 || op == 2 {
 			if len(d) == 0 || d[0].N >= 16 || d[0].N < 0 {
-				return "skipped"
+				return "skipped", tops
 			}
 		}
 		if len(d) == 0 {
@@ -420,11 +422,18 @@ func runVerdict(b []byte) (verdict string) {
 		return func(ctx context.Context, sym string, in []byte) (resource.Result, error) { return resource.Result{Content: "x"}, nil }, nil
 	})
 	v := vm.NewVm(st, rs, ca, render.NewSizer(0))
+	// what the VM is about to decode at every instruction boundary (pending code, incl. code fetched by earlier
+	// instructions), unless TERMINATE makes it leave without decoding
+	vm.VerifHook = func(ev string, x *vm.Vm, pending []byte) {
+		if ev == "top" && !st.MatchFlag(state.FLAG_TERMINATE, true) && len(tops) < 64 {
+			tops = append(tops, ints(pending))
+		}
+	}
 	_, err := v.Run(context.Background(), append([]byte{}, b...))
 	if err != nil {
-		return "err"
+		return "err", tops
 	}
-	return "ok"
+	return "ok", tops
 }
 
 // instrLen is the byte length of the first instruction of b per the format (0 if it is not complete).
@@ -471,11 +480,13 @@ type decEvent struct {
 	ToString string `json:"tostring"`
 	Run      string `json:"run"`
 	Src      string `json:"src"`
+	Tops     [][]int `json:"tops"` // pending code at every instruction boundary of the run
 }
 
 func decCase(b []byte, src string) decEvent {
 	_, ts := safeToString(b)
-	return decEvent{Ev: "dec", Bytes: ints(b), ParseAll: safeParseAll(b), ToString: ts, Run: runVerdict(b), Src: src}
+	rv, tops := runVerdict(b)
+	return decEvent{Ev: "dec", Bytes: ints(b), ParseAll: safeParseAll(b), ToString: ts, Run: rv, Src: src, Tops: tops}
 }
 
 // codec-strings <strings.ndjson> <trace-out>: byte strings from TLC (exhaustive small strings)
@@ -518,7 +529,29 @@ func cmdCodecMutate(args []string) error {
 	}
 	for i := 0; i < n; i++ {
 		var prog []aInstr
-		for _, in := range randProg(rng, 4) {
+		switch i % 4 {
+		case 1:
+			// the rest of the program is decoded by the VM AFTER an input match (the test input is "1"): every
+			// truncation and corruption of it is met in that VM state too
+			prog = append(prog, aInstr{Op: 8, A: ints([]byte("tgt")), B: ints([]byte("1")), N: []int{0, 0, 0, 0}})
+		case 2:
+			prog = append(prog, aInstr{Op: 8, A: ints([]byte("tgt")), B: ints([]byte("*")), N: []int{0, 0, 0, 0}})
+		case 3:
+			// ... and after an INCMP that did not match
+			prog = append(prog, aInstr{Op: 8, A: ints([]byte("tgt")), B: ints([]byte("7")), N: []int{0, 0, 0, 0}})
+		}
+		body := randProg(rng, 4)
+		if i%4 != 0 && (i/4)%2 == 0 {
+			// half of these: exactly ONE instruction after the INCMP, cycling through all opcodes, so that every opcode's
+			// truncations and corruptions are decoded in that VM state (nothing in between can end the run first)
+			for {
+				body = randProg(rng, 1)
+				if body[0].Op == 1+(i/8)%12 {
+					break
+				}
+			}
+		}
+		for _, in := range body {
 			// keep symbols short so that every truncation point is visited
 			if len(in.A) > 6 {
 				in.A = in.A[:6]
